@@ -37,6 +37,7 @@ type c34Op struct {
 	OK          bool
 	Panic       string
 	N           int
+	Empty       int // join only: 0 = the peer's address, 1 = nil address list, 2 = empty address list
 	returned    bool
 	retVirtual  time.Duration
 	callVirtual time.Duration
@@ -203,6 +204,9 @@ func TestC34(t *testing.T) {
 		kinds := []string{"join", "leave", "leave", "shutdown", "shutdown"}
 		for i := range ops {
 			o := &c34Op{Kind: kinds[rng.Intn(len(kinds))]}
+			if o.Kind == "join" && rng.Intn(3) == 0 {
+				o.Empty = 1 + rng.Intn(2) // nothing to contact: still a join, refused once a leave or shutdown has begun
+			}
 			switch rng.Intn(3) {
 			case 0:
 				o.At = instants[rng.Intn(len(instants))]
@@ -290,7 +294,14 @@ func TestC34(t *testing.T) {
 					var err error
 					switch o.Kind {
 					case "join":
-						o.N, err = nd.S.Join([]string{peer.Addr}, false)
+						switch o.Empty {
+						case 1:
+							o.N, err = nd.S.Join(nil, false)
+						case 2:
+							o.N, err = nd.S.Join([]string{}, false)
+						default:
+							o.N, err = nd.S.Join([]string{peer.Addr}, false)
+						}
 					case "leave":
 						err = nd.S.Leave()
 					case "shutdown":
@@ -328,7 +339,11 @@ func TestC34(t *testing.T) {
 			} else if !o.OK {
 				res = "err " + o.Err
 			}
-			hist = append(hist, fmt.Sprintf("%s@%v[%d..%d, returned at %v]=%s", o.Kind, o.At, o.call, o.ret, o.retVirtual, res))
+			kind := o.Kind
+			if o.Empty != 0 {
+				kind += []string{"", "(nil)", "([])"}[o.Empty]
+			}
+			hist = append(hist, fmt.Sprintf("%s@%v[%d..%d, returned at %v]=%s", kind, o.At, o.call, o.ret, o.retVirtual, res))
 		}
 		witness := map[string]any{"profile": profile, "alive_member": withMember, "calls": hist}
 		viol := func(key, msg string) { r.Violation(key, ci, msg+" | calls: "+strings.Join(hist, "; "), witness) }
@@ -427,6 +442,9 @@ func TestC34(t *testing.T) {
 			case "join":
 				if rank, p := observedBefore(o.call); rank >= 1 {
 					r.Count("joins_after_observed_departure", 1)
+					if o.Empty != 0 {
+						r.Count("joins_with_empty_address_list_after_observed_departure", 1)
+					}
 					if o.OK || o.N > 0 {
 						viol("join-accepted-after-"+p.state.String(), fmt.Sprintf("Join called at %v returned (n=%d, err=%q) although State() had returned %v at %v before the call", o.callVirtual, o.N, o.Err, p.state, p.at))
 					}
